@@ -305,6 +305,61 @@ def isolated_exec(mod, case, timeout=180):
     return res[1]
 
 
+def fork_call(fn, timeout=120):
+    """fn() evaluated in a forked child (a copy of the current process
+    state that the call cannot modify for the caller); the picklable result
+    comes back through a pipe.  Plain os.fork: usable from daemonic worker
+    processes too."""
+    import pickle
+    import select
+    rd, wr = os.pipe()
+    pid = os.fork()
+    if pid == 0:
+        try:
+            os.close(rd)
+            try:
+                payload = pickle.dumps(('ok', fn()))
+            except BaseException:
+                payload = pickle.dumps(('error', traceback.format_exc()))
+            with os.fdopen(wr, 'wb') as f:
+                f.write(payload)
+        finally:
+            os._exit(0)
+    os.close(wr)
+    chunks = []
+    deadline = time.time() + timeout
+    try:
+        while True:
+            left = deadline - time.time()
+            if left <= 0:
+                break
+            r, _, _ = select.select([rd], [], [], left)
+            if not r:
+                break
+            b = os.read(rd, 1 << 20)
+            if not b:
+                break
+            chunks.append(b)
+    finally:
+        os.close(rd)
+        if time.time() >= deadline:
+            try:
+                os.kill(pid, 9)
+            except OSError:
+                pass
+        try:
+            os.waitpid(pid, 0)
+        except OSError:
+            pass
+    try:
+        res = pickle.loads(b''.join(chunks))
+    except Exception:
+        raise HarnessError('fork_call: child died or timed out')
+    if res[0] != 'ok':
+        raise HarnessError('fork_call: child failed:\n' + res[1])
+    return res[1]
+
+
 def fork_map(func, jobs, nproc=None, timeout=600):
     """[func(job) for job in jobs], every job in its OWN freshly forked
     process (so that global state one job leaves behind cannot reach the
